@@ -163,6 +163,15 @@ fn registry() -> Vec<CheckDef> {
         run: kvlib::c18::run,
         replay: kvlib::c18::replay,
         assumptions: &["a failing close executes the real close first (Linux semantics)", "success is verified against the tree with the shim bypassed; Err although the effect happened is allowed", "ESTALE/ENOENT on a lookup's own open may legitimately turn a hit into a miss (documented as benign)", "the only panic accepted is the documented 'auto_sync failed' of Cache::set/put(path) under an injected fsync failure"],
+    },
+    CheckDef {
+        id: "C05",
+        level: "exploration",
+        workers: 16,
+        rule: "proptest-generated (layout, programs): layout in {plain, sharded 2-3 shards, stacked over plain/sharded with a preloaded read-only level} with capacity 1-3 (every write maintains), shared or separate handles, directories initially missing or not; 2-3 participants x 1-2 operations from {set, put, get, touch, ensure, promote, replace, maintenance-only write} over 2 keys, optionally an adversary unlinking published files; for every program set ALL single-preemption schedules (every participant order x every yield point of the first participant) are enumerated, plus generated random-walk and PCT schedules; an execution is non-trivial when some call lost a race (failed with ENOENT/EEXIST on a path a peer had just created, replaced or removed); distinct by hash of (layout, programs, picks)",
+        run: kvlib::c05::run,
+        replay: kvlib::c05::replay,
+        assumptions: &["threads with their own handles stand in for processes; exactly one participant runs between two scheduling points, every intercepted path-level or metadata call is a scheduling point", "participants run with an unprivileged effective uid (as root, permission races cannot surface)", "complete over one preemption for the generated programs, sampled beyond"],
     }]
 }
 
@@ -182,6 +191,24 @@ fn main() {
         Some("run") => orchestrate(&args[2], &args[3]),
         Some("worker") => worker(&args[2..]),
         Some("replay") => replay(&args[2]),
+        Some("conc") => {
+            // debugging aid: run one concurrent case and print its interleaving
+            let text = std::fs::read_to_string(&args[2]).unwrap();
+            let v: serde_json::Value = serde_json::from_str(&text).unwrap();
+            let c: kvlib::sched::ConcCase = serde_json::from_value(v["case"]["case"].clone()).unwrap();
+            drop_privileges();
+            let scratch = Scratch::new("dbgc");
+            kvlib::sched::prepare(&scratch.path, &c.layout);
+            let ex = kvlib::sched::run_conc(&scratch.path, &c.layout, &c.progs, &c.strategy, kvlib::sched::RunOpts { yield_data: args.get(3).map(|a| a == "data").unwrap_or(false), monitor: true, budget: 0 });
+            for e in &ex.events {
+                println!("{:>4} {}", e.seq, e.short().replace(&scratch.s(), ""));
+            }
+            for h in &ex.hist {
+                println!("hist t{} #{} {:?} call@{} ret@{} steps {} => {}", h.tid, h.op, h.pop.kind, h.call_seq, h.ret_seq, h.steps, h.ret.short());
+            }
+            println!("picks {:?} monitor {:?}", ex.picks, ex.monitor_err);
+            0
+        }
         Some("trace-os") => {
             // debugging aid: print the fault-free trace of an (op, pre, fe, fire) case
             let os = kvlib::opstate::OsCase { op: args[2].parse().unwrap(), pre: args[3].parse().unwrap(), fe: args[4].parse().unwrap(), size: 17, fire: args[5] == "1" };
